@@ -155,6 +155,69 @@ def check_grid(case, ctx):
             "borderline:" + str(borderline), "dtype:" + dtn)
 
 
+# ------------------------------------------------------------------ objects shared between derivatives
+@st.composite
+def shared_case(draw):
+    dts = draw(st.lists(st.sampled_from(DTS), min_size=2, max_size=3, unique=True))
+    return {"dts": dts, "steps": draw(st.integers(1, 12)), "n_paths": draw(st.integers(1, 3)),
+            "dtype": draw(st.sampled_from([None, "float64"])), "types": [draw(st.sampled_from(OPTIONS)) for _ in dts],
+            "order": draw(st.permutations(list(range(len(dts))))), "seed": draw(seed_s),
+            "ul": draw(st.sampled_from(["BrownianStock", "HestonStock", "MertonJumpStock"]))}
+
+
+def check_shared(case, ctx):
+    """The same feature / hedger objects used on several derivatives of equal (n_paths, n_steps) but different dt."""
+    import pfhedge.instruments as I
+    from pfhedge.features import get_feature
+    from pfhedge.nn import Hedger
+
+    from ..gens import DTYPES
+
+    class FirstColumn(torch.nn.Module):
+        def forward(self, input):
+            return input[..., [0]] * 1.0
+
+    dtype = DTYPES[case["dtype"]] if case["dtype"] else None
+    feats = {n: get_feature(n) for n in ("time_to_maturity", "expiry_time")}
+    hedger = Hedger(FirstColumn(), ["time_to_maturity", "moneyness"])
+    eps = EPS["float64" if case["dtype"] else "float32"]
+    ders = []
+    for dt, typ in zip(case["dts"], case["types"]):
+        ul = getattr(I, case["ul"])(dt=dt, dtype=dtype)
+        ders.append(getattr(I, typ)(ul, maturity=case["steps"] * dt))
+    torch.manual_seed(case["seed"])
+    for d in ders:
+        d.simulate(n_paths=case["n_paths"])
+    shapes = {tuple(d.ul().spot.shape) for d in ders}
+    for rnd in range(2):
+        for j in case["order"]:
+            d = ders[j]
+            dt = d.ul().dt
+            Tn = d.ul().spot.shape[1]
+            want = torch.tensor([(Tn - 1 - i) * dt for i in range(Tn)], dtype=torch.float64)
+            tol = 4 * eps * max((Tn - 1) * dt, dt)
+            for n, f in feats.items():
+                with ctx.sut("C13/shared/feature"):
+                    full = f.of(d).get(None)[0, :, 0].double()
+                    ones = torch.stack([f.of(d).get(i)[0, 0, 0].double() for i in range(Tn)])
+                if not ctx.check(float((full - want).abs().max()) <= tol and float((ones - want).abs().max()) <= tol, "C13/shared-feature-grid",
+                                 f"{n} feature object reused on a derivative with dt={dt!r} (after others with dt {case['dts']}) gives "
+                                 f"{full[:3].tolist()} / {ones[:3].tolist()}, expected {want[:3].tolist()}"):
+                    return
+            if Tn >= 2:
+                with torch.no_grad():
+                    with ctx.sut("C13/shared/hedger"):
+                        inp = hedger.get_input(d, None)[0, :, 0].double() if rnd else None
+                        out = hedger.compute_hedge(d)[0, 0, :].double()
+                w2 = want.clone()
+                w2[-1] = w2[-2]
+                if not ctx.check(float((out - w2).abs().max()) <= tol, "C13/shared-hedger-grid",
+                                 f"hedger reused across derivatives feeds time to maturity {out[:3].tolist()} for dt={dt!r}, expected {want[:3].tolist()}"):
+                    return
+    ctx.nontrivial(len(shapes) == 1)
+    ctx.cls("n-derivatives:%d" % len(ders), "same-shape:" + str(len(shapes) == 1))
+
+
 META = {
     "technique": "property-based testing: Hypothesis-generated (maturity, dt, instrument) configurations vs exact rational grid-size oracle",
     "level_text": "Exploration: maturities built as k*dt in floats (ratios one ulp either side of integers), as quotients and as non-integral multiples, for all 8 primaries, all option types and a two-underlier user derivative; grid size from exact rationals, time to maturity at every (also negative) index.",
@@ -166,4 +229,9 @@ SUBS = [
              "k/round(1/dt) or a non-integral multiple, k<=60; every primary, option type, forward start, variance swap and "
              "a user derivative with two underliers of different dt. Non-trivial: non-integral ratio or k != 20.",
         strategy=lambda tier: grid_case(), examples={"quick": 3000, "thorough": 30000}, fuzz={"thorough": 60.0}),
+    Sub("shared_objects", check_shared,
+        rule="one TimeToMaturity / ExpiryTime feature object and one Hedger used in a drawn order (twice) on 2-3 derivatives with the same "
+             "number of paths and steps but different dt (hence different maturities): the time grid each sees must be its own. "
+             "Non-trivial: all derivatives have the same buffer shape.",
+        strategy=lambda tier: shared_case(), examples={"quick": 500, "thorough": 5000}),
 ]
